@@ -35,6 +35,7 @@ type LogEntry struct {
 	Off    int64
 	Len    int
 	Fn     string // innermost /repo function above the seam (when attribution is on)
+	OpIdx  int    // index of the trace operation during which the call happened (-1: file creation)
 	Fault  string // fault fired at this step, if any
 	Err    bool
 }
@@ -56,6 +57,7 @@ type Sim struct {
 	handles     int
 	BudgetHit   bool
 	OnIO        func(side, op string) // E4 yield hook
+	CurOp       int                   // set by the executor: current trace op index
 	OpenHandles int
 }
 
@@ -126,7 +128,7 @@ func (s *Sim) next(side, op string, off int64, n int, h *File) (*LogEntry, *trac
 	}
 	var e *LogEntry
 	if s.KeepLog {
-		s.Log = append(s.Log, LogEntry{Step: s.Step, Handle: h.id, Side: side, Op: op, Off: off, Len: n})
+		s.Log = append(s.Log, LogEntry{Step: s.Step, Handle: h.id, Side: side, Op: op, Off: off, Len: n, OpIdx: s.CurOp})
 		e = &s.Log[len(s.Log)-1]
 		if s.Attribute && op == "write" {
 			e.Fn = callerFn()
